@@ -153,6 +153,22 @@ func run28(in input) emit.Case {
 			out, _ = a.MarshalText()
 		}
 		ok = true
+		// the caller keeps the text while other addresses are formatted (and parsed) by the same goroutine: what it
+		// reads afterwards is what is compared with the model and parsed back
+		{
+			var o codec.Address
+			for i := range o {
+				o[i] = a[i] ^ 0x5a
+			}
+			for i := 0; i < 3; i++ {
+				o[len(o)-1] ^= byte(i + 1)
+				t1, _ := o.MarshalText()
+				_ = o.String()
+				var o2 codec.Address
+				_ = o2.UnmarshalText(t1)
+				_, _ = codec.StringToAddress(string(t1))
+			}
+		}
 		a2, err := codec.StringToAddress(string(out))
 		if err == nil {
 			back, backOk = a2[:], true
